@@ -321,6 +321,12 @@ theorem concat_rebuildAP : (e : Expr) → ∀ (na : Bool) (i : Nat) (b : Bool),
     congr 1
     simp only [concat_append, concat_cons, concat_nil, text_tok, text_ws, ihb, List.append_assoc,
       List.nil_append, List.cons_append, List.append_nil]
+  | .un op expr g bt before after, na, i, b => by
+    have ihe := concat_rebuildAP expr
+    simp only [Expr.rebuildAP, Expr.rebuildA, concat_addTriviaP]
+    congr 1
+    simp only [concat_append, concat_cons, concat_nil, text_tok, text_ws, apply_ite concat, ihe, List.append_assoc,
+      List.nil_append, List.cons_append, List.append_nil]
 theorem concat_rebuildAllP : (es : List Expr) → ∀ (i : Nat) (b : Bool),
     (rebuildAllP es i b).map concat = rebuildAll es i b
   | [], i, b => rfl
@@ -337,6 +343,7 @@ theorem concat_previewP : (e : Expr) → ∀ (i : Nat), (e.previewP i).map conca
   | .sel .., i => rfl
   | .selOr .., i => rfl
   | .lam .., i => rfl
+  | .un .., i => rfl
   | .list value ml inner before after, i => by
     have ihs := fun i b => concat_rebuildAllP value i b
     simp only [Expr.previewP, Expr.preview]
